@@ -43,8 +43,11 @@ Ranking(sid) == CHOOSE p \in [1..NM -> 1..NM] :
                    /\ \A a, b \in 1..NM : a # b => p[a] # p[b]
                    /\ \A a, b \in 1..NM : a < b => RankedBefore(sid, p[a], p[b])
 \* constant-level tables (TLC evaluates them once)
-RankTab == [sid \in 1..Len(Pool) |-> IF Singular(Pool[sid], KPat) THEN <<>> ELSE Ranking(sid)]
-ChiTab  == [sid \in 1..Len(Pool) |-> IF Singular(Pool[sid], KPat) THEN <<>>
+\* a source whose regression is singular (fewer than two fitted points, or one extinction coefficient for all of them) is
+\* reached when n_data_min admits it: every sum of its normal equations cancels (0/0), so every model gets chi^2 = NaN and the
+\* ranking is free
+RankTab == [sid \in 1..Len(Pool) |-> IF Singular(Pool[sid], KPat) THEN [i \in 1..NM |-> i] ELSE Ranking(sid)]
+ChiTab  == [sid \in 1..Len(Pool) |-> IF Singular(Pool[sid], KPat) THEN [i \in 1..NM |-> S!NaN]
                                       ELSE [i \in 1..NM |-> AbsChi(FitOf(sid, RankTab[sid][i]))]]
 NDTab   == [sid \in 1..Len(Pool) |-> NData(Pool[sid])]
 ChiVec(sid) == ChiTab[sid]
